@@ -16,17 +16,39 @@ package main
 // wrap) — the properties using them state the ranges for which that is
 // exact.  Division by zero and other panics are not modelled.
 //
-// Anything else (loops, pointers, slices, maps, strings, interface calls,
-// calls into other packages) is reported as TIE-BROKEN.
+// Third stage (lists and loops): slices, arrays and strings of supported
+// element types are lists (Common/GoList.v: go_len go_idx go_slice go_upd
+// append make copy, string/[]byte conversions, == on strings, bytes.Equal,
+// strings/bytes.HasPrefix/HasSuffix, encoding/binary.BigEndian/LittleEndian
+// Uint16/32/64, PutUint16/32/64, AppendUint16/32/64); the error type is a bool
+// ("non-nil"); for loops become top-level Fixpoints over an iteration budget:
+// a range loop gets the budget S (length s) (always enough, the function
+// stays total), any other loop draws on a `fuel : nat` first parameter and
+// the function (and every function that calls it) returns `option R`, None
+// meaning the budget ran out.  break / continue / return inside loops are
+// supported (no labels, no break inside switch).  Every Go variable gets its
+// own Coq name, so shadowing in nested blocks is exact.
+//
+// Not modelled: aliasing between slices, capacity, nil vs empty, panics
+// (out-of-range index/slice, division by zero), mutation of the slice a
+// range loop iterates over.  Assigning to an element of a slice PARAMETER
+// or to a field through a pointer parameter/receiver is refused (the caller
+// would see it, the translation could not show it) unless the spec item
+// carries "allow_param_mutation": true.
+//
+// Anything else (pointers, maps, interface calls, closures, goroutines,
+// calls into packages outside the repository other than the ones listed)
+// is reported as TIE-BROKEN.
 
 import (
 	"fmt"
-	"os"
-	"path/filepath"
 	"go/ast"
 	"go/constant"
 	"go/token"
 	"go/types"
+	"os"
+	"path/filepath"
+	"sort"
 	"strings"
 )
 
@@ -99,12 +121,46 @@ func typeTag(dir, name string) string {
 	return tag
 }
 
+type envVar struct {
+	name string // coq name
+	typ  string // coq type
+}
+
+// lctx is the loop a statement is being translated in.
+type lctx struct {
+	fix    string   // name of the Fixpoint
+	lead   []string // leading arguments that never change (range source)
+	state  []envVar // variables in scope at loop entry = the state the loop hands back
+	post   []ast.Stmt
+	rng    bool   // range loop: hidden index r_i advances by one
+	depthE int    // len(t.env) right after the loop's own parameters
+	lf     string // name of the structural budget inside the fix
+	ri     string // hidden index of a range loop
+	num    int
+}
+
+type pendCall struct{ tmp, e string }
+
 type ftr struct {
 	pi    *pkgInfo
 	dir   string
 	fn    string
 	named []string // named results (coq local names)
 	nres  int
+
+	opt      bool     // result is option R, first parameter fuel : nat
+	rtPlain  string   // R
+	resKinds []tkind  // kinds of the results
+	resZero  string   // zero value of R
+	env      []envVar // Coq variables in scope, in binding order
+	names    map[types.Object]string
+	used     map[string]bool
+	loops    []*lctx
+	nloops   int
+	ntmp     int
+	pending  []pendCall
+	params   map[types.Object]bool // parameters (incl. receiver) of the function
+	allowMut bool
 }
 
 func (t *ftr) bad(n ast.Node, format string, a ...any) {
@@ -113,14 +169,26 @@ func (t *ftr) bad(n ast.Node, format string, a ...any) {
 }
 
 type tkind struct {
-	k    string // "bool" "Z" "N" "struct"
+	k    string // "bool" "Z" "N" "struct" "list" "err"
 	w    int    // width for ints
 	name string // struct name
+	elem *tkind // list element
+	alen int64  // array length, -1 for slices and strings
+}
+
+var usesGoList bool
+
+func isErrorType(ty types.Type) bool {
+	n, ok := types.Unalias(ty).(*types.Named)
+	return ok && n.Obj().Pkg() == nil && n.Obj().Name() == "error"
 }
 
 func kindOfType(ty types.Type) (tkind, bool) {
 	if ty == nil {
 		return tkind{}, false
+	}
+	if isErrorType(ty) {
+		return tkind{k: "err"}, true
 	}
 	if n, ok := ty.(*types.Named); ok {
 		if isTimeTime(n) {
@@ -134,6 +202,20 @@ func kindOfType(ty types.Type) (tkind, bool) {
 	}
 	if a, ok := ty.(*types.Alias); ok {
 		return kindOfType(types.Unalias(a))
+	}
+	switch u := ty.Underlying().(type) {
+	case *types.Slice:
+		if ek, ok := kindOfType(u.Elem()); ok {
+			usesGoList = true
+			return tkind{k: "list", elem: &ek, alen: -1}, true
+		}
+		return tkind{}, false
+	case *types.Array:
+		if ek, ok := kindOfType(u.Elem()); ok {
+			usesGoList = true
+			return tkind{k: "list", elem: &ek, alen: u.Len()}, true
+		}
+		return tkind{}, false
 	}
 	b, ok := ty.Underlying().(*types.Basic)
 	if !ok {
@@ -158,13 +240,16 @@ func kindOfType(ty types.Type) (tkind, bool) {
 		return tkind{k: "N", w: 16}, true
 	case types.Uint8:
 		return tkind{k: "N", w: 8}, true
+	case types.String, types.UntypedString:
+		usesGoList = true
+		return tkind{k: "list", elem: &tkind{k: "N", w: 8}, alen: -1}, true
 	}
 	return tkind{}, false
 }
 
 func (k tkind) coq() string {
 	switch k.k {
-	case "bool":
+	case "bool", "err":
 		return "bool"
 	case "Z":
 		return "Z"
@@ -172,8 +257,27 @@ func (k tkind) coq() string {
 		return "N"
 	case "struct":
 		return "T_" + k.name
+	case "list":
+		return "(list " + k.elem.coq() + ")"
 	}
 	return "?"
+}
+
+// eqb gives a boolean equality on values of kind k, "" if there is none.
+func (k tkind) eqb() string {
+	switch k.k {
+	case "bool", "err":
+		return "Bool.eqb"
+	case "Z":
+		return "Z.eqb"
+	case "N":
+		return "N.eqb"
+	case "list":
+		if e := k.elem.eqb(); e != "" {
+			return "(go_list_eqb " + e + ")"
+		}
+	}
+	return ""
 }
 
 func modOf(w int) string {
@@ -190,26 +294,39 @@ func modOf(w int) string {
 
 func wrapOf(w int) string { return fmt.Sprintf("wrap%d", w) }
 
-func (t *ftr) zero(ty types.Type, at ast.Node) string {
-	k, ok := kindOfType(ty)
-	if !ok {
-		t.bad(at, "unsupported type %s", ty)
-	}
+func (t *ftr) zeroK(k tkind, ty types.Type, at ast.Node) string {
 	switch k.k {
-	case "bool":
+	case "bool", "err":
 		return "false"
 	case "Z":
 		return "(0)%Z"
 	case "N":
 		return "(0)%N"
+	case "list":
+		if k.alen >= 0 {
+			var ety types.Type
+			if a, ok := ty.Underlying().(*types.Array); ok {
+				ety = a.Elem()
+			}
+			return fmt.Sprintf("(go_make %s (%d)%%Z)", t.zeroK(*k.elem, ety, at), k.alen)
+		}
+		return "(@nil " + k.elem.coq() + ")"
 	}
 	st := ty.Underlying().(*types.Struct)
-	t.ensureStruct(ty.(*types.Named), at)
+	t.ensureStruct(namedOf(ty), at)
 	var parts []string
 	for i := 0; i < st.NumFields(); i++ {
 		parts = append(parts, t.zero(st.Field(i).Type(), at))
 	}
 	return "(mk_T_" + k.name + " " + strings.Join(parts, " ") + ")"
+}
+
+func (t *ftr) zero(ty types.Type, at ast.Node) string {
+	k, ok := kindOfType(ty)
+	if !ok {
+		t.bad(at, "unsupported type %s", ty)
+	}
+	return t.zeroK(k, ty, at)
 }
 
 func (t *ftr) ensureStruct(n *types.Named, at ast.Node) {
@@ -225,12 +342,47 @@ func (t *ftr) ensureStruct(n *types.Named, at ast.Node) {
 		if !ok {
 			t.bad(at, "struct %s field %s has unsupported type", n.Obj().Name(), st.Field(i).Name())
 		}
-		if fk.k == "struct" {
-			t.ensureStruct(st.Field(i).Type().(*types.Named), at)
-		}
+		t.ensureKind(fk, st.Field(i).Type(), at)
 		fs = append(fs, fmt.Sprintf("T_%s_%s : %s", structTag(n), st.Field(i).Name(), fk.coq()))
 	}
 	fmt.Fprintf(&out, "(* struct %s.%s *)\nRecord T_%s := mk_T_%s { %s }.\n\n", dirOfPkg(n.Obj().Pkg()), n.Obj().Name(), structTag(n), structTag(n), strings.Join(fs, "; "))
+	structEmitted[key] = true
+}
+
+// structEmitted: the Record is written (not merely scheduled), so a zero constant may follow it.
+var (
+	structEmitted = map[string]bool{}
+	zeroConst     = map[string]bool{}
+)
+
+// zeroName is zeroK, with a named constant standing in for a record's zero value
+// (the default of go_idx, which would otherwise be spelled out at every index expression).
+func (t *ftr) zeroName(k tkind, ty types.Type, at ast.Node) string {
+	if k.k != "struct" {
+		return t.zeroK(k, ty, at)
+	}
+	t.ensureKind(k, ty, at)
+	name := "zero_T_" + k.name
+	if !zeroConst[name] {
+		zeroConst[name] = true
+		fmt.Fprintf(&out, "Definition %s : T_%s := %s.\n\n", name, k.name, t.zeroK(k, ty, at))
+	}
+	return name
+}
+
+// ensureKind emits the record types a value of kind k mentions.
+func (t *ftr) ensureKind(k tkind, ty types.Type, at ast.Node) {
+	switch k.k {
+	case "struct":
+		t.ensureStruct(namedOf(ty), at)
+	case "list":
+		switch u := types.Unalias(ty).Underlying().(type) {
+		case *types.Slice:
+			t.ensureKind(*k.elem, u.Elem(), at)
+		case *types.Array:
+			t.ensureKind(*k.elem, u.Elem(), at)
+		}
+	}
 }
 
 func (t *ftr) typeOf(e ast.Expr) types.Type {
@@ -253,9 +405,7 @@ func (t *ftr) kindOf(e ast.Expr) tkind {
 	if !ok {
 		t.bad(e, "expression of unsupported type %v", t.typeOf(e))
 	}
-	if k.k == "struct" {
-		t.ensureStruct(namedOf(t.typeOf(e)), e)
-	}
+	t.ensureKind(k, t.typeOf(e), e)
 	return k
 }
 
@@ -287,9 +437,132 @@ func constLit(v constant.Value, k tkind) (string, bool) {
 		if iv.Kind() == constant.Int && constant.Sign(iv) >= 0 {
 			return "(" + iv.ExactString() + ")%N", true
 		}
+	case "list":
+		if v.Kind() == constant.String && k.elem.k == "N" {
+			b := []byte(constant.StringVal(v))
+			if len(b) == 0 {
+				return "(@nil N)", true
+			}
+			var parts []string
+			for _, c := range b {
+				parts = append(parts, fmt.Sprintf("%d", c))
+			}
+			return "([" + strings.Join(parts, "; ") + "]%N)", true
+		}
 	}
 	return "", false
 }
+
+// ------------------------------------------------------------ names and scope
+
+func (t *ftr) nameOf(obj types.Object) string {
+	if n, ok := t.names[obj]; ok {
+		return n
+	}
+	base := "v_" + obj.Name()
+	n := base
+	for i := 2; t.used[n]; i++ {
+		n = fmt.Sprintf("%s_%d", base, i)
+	}
+	t.used[n] = true
+	t.names[obj] = n
+	return n
+}
+
+func (t *ftr) objOf(id *ast.Ident) types.Object {
+	if o := t.pi.info.Defs[id]; o != nil {
+		return o
+	}
+	return t.pi.info.Uses[id]
+}
+
+func (t *ftr) push(name, typ string) { t.env = append(t.env, envVar{name, typ}) }
+
+// bind registers name as bound (if it is not in scope yet) while rest is rendered.
+func (t *ftr) bind(name, typ string, rest func() string) string {
+	for _, v := range t.env {
+		if v.name == name {
+			return rest()
+		}
+	}
+	t.env = append(t.env, envVar{name, typ})
+	n := len(t.env)
+	r := rest()
+	t.env = t.env[:n-1]
+	return r
+}
+
+func tupleOf(vs []envVar) string {
+	if len(vs) == 0 {
+		return "tt"
+	}
+	var ns []string
+	for _, v := range vs {
+		ns = append(ns, v.name)
+	}
+	if len(ns) == 1 {
+		return ns[0]
+	}
+	return "(" + strings.Join(ns, ", ") + ")"
+}
+
+func tupleTypeOf(vs []envVar) string {
+	if len(vs) == 0 {
+		return "unit"
+	}
+	var ts []string
+	for _, v := range vs {
+		ts = append(ts, v.typ)
+	}
+	if len(ts) == 1 {
+		return ts[0]
+	}
+	return "(" + strings.Join(ts, " * ") + ")%type"
+}
+
+func (t *ftr) cur() *lctx {
+	if len(t.loops) == 0 {
+		return nil
+	}
+	return t.loops[len(t.loops)-1]
+}
+
+// mkRet renders "the function returns r" in the current context.
+func (t *ftr) mkRet(r string) string {
+	if c := t.cur(); c != nil {
+		return "(GoRet " + r + ", " + tupleOf(c.state) + ")"
+	}
+	if t.opt {
+		return "(Some " + r + ")"
+	}
+	return r
+}
+
+// mkOof renders "the iteration budget ran out" in the current context.
+func (t *ftr) mkOof() string {
+	if c := t.cur(); c != nil {
+		return "(GoOof, " + tupleOf(c.state) + ")"
+	}
+	if t.opt {
+		return "None"
+	}
+	return t.resZero // only behind a range loop's budget S (length s): unreachable
+}
+
+func (t *ftr) takePending() []pendCall {
+	p := t.pending
+	t.pending = nil
+	return p
+}
+
+func (t *ftr) wrapPending(p []pendCall, body string) string {
+	for i := len(p) - 1; i >= 0; i-- {
+		body = "(match " + p[i].e + " with\n  | Some " + p[i].tmp + " => " + body + "\n  | None => " + t.mkOof() + " end)"
+	}
+	return body
+}
+
+// ---------------------------------------------------------------- expressions
 
 func (t *ftr) toN(e ast.Expr) string { // shift counts
 	tv := t.pi.info.Types[e]
@@ -303,6 +576,36 @@ func (t *ftr) toN(e ast.Expr) string { // shift counts
 		return t.expr(e)
 	}
 	return "(Z.to_N " + t.expr(e) + ")"
+}
+
+// toZ renders an index / length expression as Z.
+func (t *ftr) toZ(e ast.Expr) string {
+	tv := t.pi.info.Types[e]
+	if tv.Value != nil {
+		if s, ok := constLit(tv.Value, tkind{k: "Z"}); ok {
+			return s
+		}
+	}
+	k := t.kindOf(e)
+	switch k.k {
+	case "Z":
+		return t.expr(e)
+	case "N":
+		return "(Z.of_N " + t.expr(e) + ")"
+	}
+	t.bad(e, "index of kind %s", k.k)
+	return ""
+}
+
+func (t *ftr) isNil(e ast.Expr) bool {
+	if tv, ok := t.pi.info.Types[e]; ok && tv.IsNil() {
+		return true
+	}
+	if id, ok := e.(*ast.Ident); ok && id.Name == "nil" {
+		_, isNil := t.pi.info.Uses[id].(*types.Nil)
+		return isNil
+	}
+	return false
 }
 
 func (t *ftr) expr(e ast.Expr) string {
@@ -322,13 +625,13 @@ func (t *ftr) expr(e ast.Expr) string {
 		case "true", "false":
 			return e.Name
 		}
-		obj := t.pi.info.Uses[e]
-		if obj == nil {
-			obj = t.pi.info.Defs[e]
-		}
-		if v, ok := obj.(*types.Var); ok && v.Parent() != t.pi.pkg.Scope() {
+		obj := t.objOf(e)
+		if v, ok := obj.(*types.Var); ok && v.Parent() != t.pi.pkg.Scope() && !v.IsField() {
 			t.kindOf(e)
-			return "v_" + e.Name
+			return t.nameOf(v)
+		}
+		if v, ok := obj.(*types.Var); ok && isErrorType(v.Type()) {
+			return "true" // a package-level error value: non-nil
 		}
 		t.bad(e, "identifier %s is not a local variable or constant", e.Name)
 	case *ast.UnaryExpr:
@@ -353,6 +656,37 @@ func (t *ftr) expr(e ast.Expr) string {
 		t.bad(e, "unary operator %s", e.Op)
 	case *ast.BinaryExpr:
 		return t.binary(e)
+	case *ast.IndexExpr:
+		bk := t.kindOf(e.X)
+		if bk.k != "list" {
+			t.bad(e, "index into a non-list")
+		}
+		var ety types.Type
+		switch u := types.Unalias(t.typeOf(e.X)).Underlying().(type) {
+		case *types.Slice:
+			ety = u.Elem()
+		case *types.Array:
+			ety = u.Elem()
+		}
+		return "(go_idx " + t.zeroName(*bk.elem, ety, e) + " " + t.expr(e.X) + " " + t.toZ(e.Index) + ")"
+	case *ast.SliceExpr:
+		if e.Slice3 {
+			t.bad(e, "three-index slice")
+		}
+		bk := t.kindOf(e.X)
+		if bk.k != "list" {
+			t.bad(e, "slice of a non-list")
+		}
+		x := t.expr(e.X)
+		switch {
+		case e.Low == nil && e.High == nil:
+			return x
+		case e.High == nil:
+			return "(go_slice_from " + x + " " + t.toZ(e.Low) + ")"
+		case e.Low == nil:
+			return "(go_slice_to " + x + " " + t.toZ(e.High) + ")"
+		}
+		return "(go_slice " + x + " " + t.toZ(e.Low) + " " + t.toZ(e.High) + ")"
 	case *ast.SelectorExpr:
 		// struct field
 		if sel := namedOf(t.typeOf(e.X)); sel != nil {
@@ -364,47 +698,90 @@ func (t *ftr) expr(e ast.Expr) string {
 				}
 			}
 		}
+		if v, ok := t.pi.info.Uses[e.Sel].(*types.Var); ok && isErrorType(v.Type()) && !v.IsField() {
+			return "true" // pkg.ErrSomething
+		}
 		t.bad(e, "selector %s", e.Sel.Name)
-	case *ast.CompositeLit:
-		n := namedOf(t.typeOf(e))
-		if isTimeTime(n) && len(e.Elts) == 0 {
-			return "(0)%Z"
-		}
-		if n == nil {
-			t.bad(e, "composite literal of unsupported type")
-		}
-		st, ok := n.Underlying().(*types.Struct)
-		if !ok || !inRepo(n.Obj().Pkg()) {
-			t.bad(e, "composite literal of a type outside the repository")
-		}
-		t.ensureStruct(n, e)
-		vals := make([]string, st.NumFields())
-		for i := range vals {
-			vals[i] = t.zero(st.Field(i).Type(), e)
-		}
-		for i, el := range e.Elts {
-			if kv, ok := el.(*ast.KeyValueExpr); ok {
-				name := kv.Key.(*ast.Ident).Name
-				found := false
-				for j := 0; j < st.NumFields(); j++ {
-					if st.Field(j).Name() == name {
-						vals[j] = t.expr(kv.Value)
-						found = true
-					}
-				}
-				if !found {
-					t.bad(e, "unknown field %s", name)
-				}
-			} else {
-				vals[i] = t.expr(el)
+	case *ast.StarExpr:
+		// *p where p is a pointer to a translatable struct: the value itself
+		if n := namedOf(t.typeOf(e.X)); n != nil {
+			if _, ok := t.typeOf(e.X).(*types.Pointer); ok {
+				return t.expr(e.X)
 			}
 		}
-		return "(mk_T_" + structTag(n) + " " + strings.Join(vals, " ") + ")"
+		t.bad(e, "pointer dereference")
+	case *ast.CompositeLit:
+		return t.composite(e)
 	case *ast.CallExpr:
 		return t.call(e)
 	}
 	t.bad(e, "unsupported expression %T", e)
 	return ""
+}
+
+func (t *ftr) composite(e *ast.CompositeLit) string {
+	ty := t.typeOf(e)
+	if k, ok := kindOfType(ty); ok && k.k == "list" {
+		var ety types.Type
+		switch u := types.Unalias(ty).Underlying().(type) {
+		case *types.Slice:
+			ety = u.Elem()
+		case *types.Array:
+			ety = u.Elem()
+		}
+		t.ensureKind(k, ty, e)
+		var parts []string
+		for _, el := range e.Elts {
+			if _, ok := el.(*ast.KeyValueExpr); ok {
+				t.bad(e, "keyed element in a slice/array literal")
+			}
+			parts = append(parts, t.exprAs(el, *k.elem))
+		}
+		lit := "(@nil " + k.elem.coq() + ")"
+		if len(parts) > 0 {
+			lit = "[" + strings.Join(parts, "; ") + "]"
+		}
+		if k.alen >= 0 && int64(len(parts)) < k.alen {
+			return fmt.Sprintf("(%s ++ go_make %s (%d)%%Z)", lit, t.zeroK(*k.elem, ety, e), k.alen-int64(len(parts)))
+		}
+		return lit
+	}
+	n := namedOf(ty)
+	if isTimeTime(n) && len(e.Elts) == 0 {
+		return "(0)%Z"
+	}
+	if n == nil {
+		t.bad(e, "composite literal of unsupported type")
+	}
+	st, ok := n.Underlying().(*types.Struct)
+	if !ok || !inRepo(n.Obj().Pkg()) {
+		t.bad(e, "composite literal of a type outside the repository")
+	}
+	t.ensureStruct(n, e)
+	vals := make([]string, st.NumFields())
+	for i := range vals {
+		vals[i] = t.zero(st.Field(i).Type(), e)
+	}
+	for i, el := range e.Elts {
+		if kv, ok := el.(*ast.KeyValueExpr); ok {
+			name := kv.Key.(*ast.Ident).Name
+			found := false
+			for j := 0; j < st.NumFields(); j++ {
+				if st.Field(j).Name() == name {
+					fk, _ := kindOfType(st.Field(j).Type())
+					vals[j] = t.exprAs(kv.Value, fk)
+					found = true
+				}
+			}
+			if !found {
+				t.bad(e, "unknown field %s", name)
+			}
+		} else {
+			fk, _ := kindOfType(st.Field(i).Type())
+			vals[i] = t.exprAs(el, fk)
+		}
+	}
+	return "(mk_T_" + structTag(n) + " " + strings.Join(vals, " ") + ")"
 }
 
 func (t *ftr) binary(e *ast.BinaryExpr) string {
@@ -428,6 +805,30 @@ func (t *ftr) binary(e *ast.BinaryExpr) string {
 		}
 		return "(Z.shiftr " + x + " (Z.of_N " + c + "))"
 	case token.EQL, token.NEQ, token.LSS, token.LEQ, token.GTR, token.GEQ:
+		// comparison with nil: errors (non-nil flag) and slices (nil = empty)
+		if t.isNil(e.X) || t.isNil(e.Y) {
+			o := e.X
+			if t.isNil(e.X) {
+				o = e.Y
+			}
+			ok := t.kindOf(o)
+			var isnil string
+			switch ok.k {
+			case "err":
+				isnil = "(negb " + t.expr(o) + ")"
+			case "list":
+				isnil = "(Z.eqb (go_len " + t.expr(o) + ") (0)%Z)"
+			default:
+				t.bad(e, "comparison of a %s value with nil", ok.k)
+			}
+			if e.Op == token.EQL {
+				return isnil
+			}
+			if e.Op == token.NEQ {
+				return "(negb " + isnil + ")"
+			}
+			t.bad(e, "ordering against nil")
+		}
 		// operand kind: take from whichever side is typed
 		k := t.kindOf(e.X)
 		if tv := t.pi.info.Types[e.X]; tv.Value != nil {
@@ -448,6 +849,18 @@ func (t *ftr) binary(e *ast.BinaryExpr) string {
 				return "(negb (Bool.eqb " + x + " " + y + "))"
 			}
 			t.bad(e, "ordering on bool")
+		case "list":
+			eq := k.eqb()
+			if eq == "" || k.alen >= 0 && false {
+				t.bad(e, "comparison of lists without decidable element equality")
+			}
+			if e.Op == token.EQL {
+				return "(" + eq + " " + x + " " + y + ")"
+			}
+			if e.Op == token.NEQ {
+				return "(negb (" + eq + " " + x + " " + y + "))"
+			}
+			t.bad(e, "ordering on strings")
 		default:
 			t.bad(e, "comparison of %s values", k.k)
 		}
@@ -468,6 +881,9 @@ func (t *ftr) binary(e *ast.BinaryExpr) string {
 	}
 	k := t.kindOf(e)
 	x, y := t.exprAs(e.X, k), t.exprAs(e.Y, k)
+	if k.k == "list" && e.Op == token.ADD {
+		return "(" + x + " ++ " + y + ")"
+	}
 	if k.k == "Z" {
 		op := map[token.Token]string{token.ADD: "Z.add", token.SUB: "Z.sub", token.MUL: "Z.mul", token.QUO: "Z.quot",
 			token.REM: "Z.rem", token.AND: "Z.land", token.OR: "Z.lor", token.XOR: "Z.lxor", token.AND_NOT: "Z.ldiff"}[e.Op]
@@ -502,14 +918,49 @@ func (t *ftr) binary(e *ast.BinaryExpr) string {
 	return ""
 }
 
-// exprAs renders e, forcing constant operands into kind k.
+// exprAs renders e, forcing constant operands, nil and foreign error values into kind k.
 func (t *ftr) exprAs(e ast.Expr, k tkind) string {
 	if tv, ok := t.pi.info.Types[e]; ok && tv.Value != nil {
 		if s, ok := constLit(tv.Value, k); ok {
 			return s
 		}
 	}
+	if t.isNil(e) {
+		switch k.k {
+		case "err":
+			return "false"
+		case "list":
+			return "(@nil " + k.elem.coq() + ")"
+		}
+		t.bad(e, "nil where a %s is expected", k.k)
+	}
+	if k.k == "err" {
+		if p, ok := e.(*ast.ParenExpr); ok {
+			return t.exprAs(p.X, k)
+		}
+		// an error made by a function outside the repository (errors.New, fmt.Errorf, ...): non-nil
+		if c, ok := e.(*ast.CallExpr); ok && !t.repoCallee(c) {
+			if tv, ok := t.pi.info.Types[c.Fun]; !ok || !tv.IsType() {
+				return "true"
+			}
+		}
+	}
 	return t.expr(e)
+}
+
+// repoCallee reports whether the call's callee is a function or method declared in the repository.
+func (t *ftr) repoCallee(e *ast.CallExpr) bool {
+	var id *ast.Ident
+	switch f := e.Fun.(type) {
+	case *ast.Ident:
+		id = f
+	case *ast.SelectorExpr:
+		id = f.Sel
+	default:
+		return false
+	}
+	fn, ok := t.pi.info.Uses[id].(*types.Func)
+	return ok && fn.Pkg() != nil && (fn.Pkg() == t.pi.pkg || inRepo(fn.Pkg()))
 }
 
 func (t *ftr) conv(target types.Type, arg ast.Expr, at ast.Node) string {
@@ -517,11 +968,19 @@ func (t *ftr) conv(target types.Type, arg ast.Expr, at ast.Node) string {
 	if !ok {
 		t.bad(at, "conversion to unsupported type %s", target)
 	}
+	if t.isNil(arg) {
+		return t.exprAs(arg, tk)
+	}
 	sk := t.kindOf(arg)
 	x := t.expr(arg)
 	switch {
 	case tk.k == "bool" && sk.k == "bool":
 		return x
+	case tk.k == "list" && sk.k == "list":
+		if tk.elem.k == sk.elem.k && tk.elem.w == sk.elem.w {
+			return x // string <-> []byte, named slice types
+		}
+		t.bad(at, "conversion between lists of different element types")
 	case tk.k == "N" && sk.k == "N":
 		if tk.w >= sk.w {
 			return x
@@ -544,6 +1003,49 @@ func (t *ftr) conv(target types.Type, arg ast.Expr, at ast.Node) string {
 	return ""
 }
 
+// stdFunc recognises the handful of standard-library functions the translator knows.
+func (t *ftr) stdFunc(e *ast.CallExpr) (string, bool) {
+	sel, ok := e.Fun.(*ast.SelectorExpr)
+	if !ok {
+		return "", false
+	}
+	fn, ok := t.pi.info.Uses[sel.Sel].(*types.Func)
+	if !ok || fn.Pkg() == nil {
+		return "", false
+	}
+	full := fn.FullName()
+	arg := func(i int) string { return t.expr(e.Args[i]) }
+	be := map[string]string{"Uint16": "16", "Uint32": "32", "Uint64": "64"}
+	switch {
+	case strings.HasPrefix(full, "(encoding/binary.bigEndian).") || strings.HasPrefix(full, "(encoding/binary.littleEndian)."):
+		usesGoList = true
+		pre := "go_be"
+		if strings.Contains(full, "littleEndian") {
+			pre = "go_le"
+		}
+		name := fn.Name()
+		if w, ok := be[name]; ok {
+			if pre == "go_le" && w == "64" {
+				return "", false
+			}
+			return "(" + pre + w + " " + arg(0) + ")", true
+		}
+		if w, ok := be[strings.TrimPrefix(name, "Append")]; ok && strings.HasPrefix(name, "Append") && pre == "go_be" {
+			return "(" + arg(0) + " ++ go_put_be" + w + " " + t.exprAs(e.Args[1], tkind{k: "N", w: 64}) + ")", true
+		}
+	case full == "bytes.Equal":
+		usesGoList = true
+		return "(go_list_eqb N.eqb " + t.exprAs(e.Args[0], byteList) + " " + t.exprAs(e.Args[1], byteList) + ")", true
+	case full == "strings.HasPrefix" || full == "bytes.HasPrefix":
+		return "(go_has_prefix N.eqb " + t.exprAs(e.Args[0], byteList) + " " + t.exprAs(e.Args[1], byteList) + ")", true
+	case full == "strings.HasSuffix" || full == "bytes.HasSuffix":
+		return "(go_has_suffix N.eqb " + t.exprAs(e.Args[0], byteList) + " " + t.exprAs(e.Args[1], byteList) + ")", true
+	}
+	return "", false
+}
+
+var byteList = tkind{k: "list", elem: &tkind{k: "N", w: 8}, alen: -1}
+
 func (t *ftr) call(e *ast.CallExpr) string {
 	// conversion?
 	if tv, ok := t.pi.info.Types[e.Fun]; ok && tv.IsType() {
@@ -552,21 +1054,60 @@ func (t *ftr) call(e *ast.CallExpr) string {
 		}
 		return t.conv(tv.Type, e.Args[0], e)
 	}
+	if s, ok := t.stdFunc(e); ok {
+		return s
+	}
 	switch f := e.Fun.(type) {
 	case *ast.Ident:
-		if f.Name == "min" || f.Name == "max" {
-			if _, isBuiltin := t.pi.info.Uses[f].(*types.Builtin); isBuiltin {
+		if _, isBuiltin := t.pi.info.Uses[f].(*types.Builtin); isBuiltin {
+			switch f.Name {
+			case "min", "max":
 				k := t.kindOf(e)
 				acc := t.exprAs(e.Args[0], k)
 				for _, a := range e.Args[1:] {
 					acc = "(" + k.k + "." + f.Name + " " + acc + " " + t.exprAs(a, k) + ")"
 				}
 				return acc
+			case "len":
+				if t.kindOf(e.Args[0]).k != "list" {
+					t.bad(e, "len of a non-list")
+				}
+				return "(go_len " + t.expr(e.Args[0]) + ")"
+			case "append":
+				k := t.kindOf(e)
+				acc := t.exprAs(e.Args[0], k)
+				if e.Ellipsis.IsValid() {
+					if len(e.Args) != 2 {
+						t.bad(e, "append shape")
+					}
+					return "(" + acc + " ++ " + t.exprAs(e.Args[1], k) + ")"
+				}
+				var parts []string
+				for _, a := range e.Args[1:] {
+					parts = append(parts, t.exprAs(a, *k.elem))
+				}
+				if len(parts) == 0 {
+					return acc
+				}
+				return "(" + acc + " ++ [" + strings.Join(parts, "; ") + "])"
+			case "make":
+				k := t.kindOf(e)
+				if k.k != "list" {
+					t.bad(e, "make of a non-slice")
+				}
+				if len(e.Args) < 2 {
+					t.bad(e, "make without a length")
+				}
+				var ety types.Type
+				if sl, ok := types.Unalias(t.typeOf(e)).Underlying().(*types.Slice); ok {
+					ety = sl.Elem()
+				}
+				return "(go_make " + t.zeroK(*k.elem, ety, e) + " " + t.toZ(e.Args[1]) + ")"
 			}
+			t.bad(e, "builtin %s", f.Name)
 		}
 		if fn, ok := t.pi.info.Uses[f].(*types.Func); ok && fn.Pkg() == t.pi.pkg {
-			name := ensureFunc(t.pi, t.dir, f.Name, e)
-			return t.apply(name, nil, e)
+			return t.apply(t.pi, t.dir, f.Name, nil, e)
 		}
 	case *ast.SelectorExpr:
 		if n := namedOf(t.typeOf(f.X)); isTimeTime(n) {
@@ -599,8 +1140,7 @@ func (t *ftr) call(e *ast.CallExpr) string {
 				if d != t.dir {
 					pi = loadPkg(d)
 				}
-				name := ensureFunc(pi, d, n.Obj().Name()+"."+f.Sel.Name, e)
-				return t.apply(name, f.X, e)
+				return t.apply(pi, d, n.Obj().Name()+"."+f.Sel.Name, f.X, e)
 			}
 		}
 		// function of another package of the repository: pkg.Func(args)
@@ -608,8 +1148,7 @@ func (t *ftr) call(e *ast.CallExpr) string {
 			if pn, ok := t.pi.info.Uses[id].(*types.PkgName); ok && inRepo(pn.Imported()) {
 				if _, ok := t.pi.info.Uses[f.Sel].(*types.Func); ok {
 					d := dirOfPkg(pn.Imported())
-					name := ensureFunc(loadPkg(d), d, f.Sel.Name, e)
-					return t.apply(name, nil, e)
+					return t.apply(loadPkg(d), d, f.Sel.Name, nil, e)
 				}
 			}
 		}
@@ -618,8 +1157,19 @@ func (t *ftr) call(e *ast.CallExpr) string {
 	return ""
 }
 
-func (t *ftr) apply(name string, recv ast.Expr, e *ast.CallExpr) string {
+// apply renders a call of the translatable function dir.fn. A callee that needs an
+// iteration budget returns an option: the call is hoisted in front of the statement
+// (takePending / wrapPending) and its place is taken by the bound result.
+func (t *ftr) apply(pi *pkgInfo, dir, fn string, recv ast.Expr, e *ast.CallExpr) string {
+	name := ensureFunc(pi, dir, fn, e)
 	parts := []string{name}
+	calleeOpt := optFuncs[dir+"."+fn]
+	if calleeOpt {
+		if !t.opt {
+			t.bad(e, "internal: callee needs fuel but caller was not classified so")
+		}
+		parts = append(parts, "fuel")
+	}
 	if recv != nil {
 		parts = append(parts, t.expr(recv))
 	}
@@ -633,38 +1183,194 @@ func (t *ftr) apply(name string, recv ast.Expr, e *ast.CallExpr) string {
 		}
 		parts = append(parts, t.expr(a))
 	}
-	return "(" + strings.Join(parts, " ") + ")"
+	c := "(" + strings.Join(parts, " ") + ")"
+	if !calleeOpt {
+		return c
+	}
+	t.ntmp++
+	tmp := fmt.Sprintf("c_%d", t.ntmp)
+	t.pending = append(t.pending, pendCall{tmp, c})
+	return tmp
 }
 
 // ------------------------------------------------------------- statements
 
-func (t *ftr) assignTo(lhs ast.Expr, val string, rest string) string {
+func rootIdent(e ast.Expr) *ast.Ident {
+	for {
+		switch x := e.(type) {
+		case *ast.Ident:
+			return x
+		case *ast.ParenExpr:
+			e = x.X
+		case *ast.SelectorExpr:
+			e = x.X
+		case *ast.IndexExpr:
+			e = x.X
+		case *ast.SliceExpr:
+			e = x.X
+		case *ast.StarExpr:
+			e = x.X
+		default:
+			return nil
+		}
+	}
+}
+
+// refuseCallerVisible refuses a mutation the caller of the Go function would see.
+func (t *ftr) refuseCallerVisible(lhs ast.Expr, base *ast.Ident, what string) {
+	if t.allowMut {
+		return
+	}
+	obj := t.objOf(base)
+	if !t.params[obj] {
+		return
+	}
+	ty := types.Unalias(obj.Type())
+	_, isPtr := ty.(*types.Pointer)
+	_, isSlice := ty.Underlying().(*types.Slice)
+	if isPtr || (isSlice && what == "element") {
+		t.bad(lhs, "assignment to %s of parameter %s is visible to the caller and cannot be shown by a pure translation (set \"allow_param_mutation\": true on the item if the caller-visible effect is irrelevant)", what, base.Name)
+	}
+}
+
+func (t *ftr) letIn(name, typ, val string, rest func() string) string {
+	return t.bind(name, typ, func() string { return "(let " + name + " := " + val + " in\n  " + rest() + ")" })
+}
+
+func (t *ftr) assignTo(lhs ast.Expr, val string, rest func() string) string {
 	switch l := lhs.(type) {
+	case *ast.ParenExpr:
+		return t.assignTo(l.X, val, rest)
 	case *ast.Ident:
 		if l.Name == "_" {
-			return rest
+			return rest()
 		}
-		return "(let v_" + l.Name + " := " + val + " in\n  " + rest + ")"
+		obj := t.objOf(l)
+		k, ok := kindOfType(obj.Type())
+		if !ok {
+			t.bad(lhs, "variable %s has unsupported type %s", l.Name, obj.Type())
+		}
+		t.ensureKind(k, obj.Type(), lhs)
+		return t.letIn(t.nameOf(obj), k.coq(), val, rest)
+	case *ast.SelectorExpr, *ast.IndexExpr:
+		base := rootIdent(lhs)
+		if base == nil {
+			t.bad(lhs, "unsupported assignment target")
+		}
+		what := "field"
+		if _, ok := lhs.(*ast.IndexExpr); ok {
+			what = "element"
+		}
+		t.refuseCallerVisible(lhs, base, what)
+		obj := t.objOf(base)
+		bk, ok := kindOfType(derefStruct(obj.Type()))
+		if !ok {
+			t.bad(lhs, "variable %s has unsupported type", base.Name)
+		}
+		return t.letIn(t.nameOf(obj), bk.coq(), t.lvalUpdate(lhs, val), rest)
+	}
+	t.bad(lhs, "unsupported assignment target")
+	return ""
+}
+
+func derefStruct(ty types.Type) types.Type {
+	if p, ok := types.Unalias(ty).(*types.Pointer); ok {
+		return p.Elem()
+	}
+	return ty
+}
+
+// lvalUpdate gives the new value of the variable at the root of lhs after `lhs = val`.
+func (t *ftr) lvalUpdate(lhs ast.Expr, val string) string {
+	switch l := lhs.(type) {
+	case *ast.ParenExpr:
+		return t.lvalUpdate(l.X, val)
+	case *ast.Ident:
+		return val
+	case *ast.StarExpr:
+		return t.lvalUpdate(l.X, val)
 	case *ast.SelectorExpr:
-		base, ok := l.X.(*ast.Ident)
 		n := namedOf(t.typeOf(l.X))
-		if ok && n != nil {
+		if n != nil {
 			if st, ok := n.Underlying().(*types.Struct); ok && inRepo(n.Obj().Pkg()) {
 				t.ensureStruct(n, lhs)
+				x := t.expr(l.X)
 				var parts []string
+				found := false
 				for i := 0; i < st.NumFields(); i++ {
 					if st.Field(i).Name() == l.Sel.Name {
 						parts = append(parts, val)
+						found = true
 					} else {
-						parts = append(parts, "(T_"+structTag(n)+"_"+st.Field(i).Name()+" v_"+base.Name+")")
+						parts = append(parts, "(T_"+structTag(n)+"_"+st.Field(i).Name()+" "+x+")")
 					}
 				}
-				return "(let v_" + base.Name + " := (mk_T_" + structTag(n) + " " + strings.Join(parts, " ") + ") in\n  " + rest + ")"
+				if found {
+					return t.lvalUpdate(l.X, "(mk_T_"+structTag(n)+" "+strings.Join(parts, " ")+")")
+				}
 			}
+		}
+	case *ast.IndexExpr:
+		if t.kindOf(l.X).k == "list" {
+			return t.lvalUpdate(l.X, "(go_upd "+t.expr(l.X)+" "+t.toZ(l.Index)+" "+val+")")
 		}
 	}
 	t.bad(lhs, "unsupported assignment target")
 	return ""
+}
+
+// overwrite renders `copy(dst, src)` / PutUintNN(dst, v) as an update of the variable under dst.
+func (t *ftr) overwrite(dst ast.Expr, src string, rest func() string, at ast.Node) string {
+	off := "(0)%Z"
+	target := dst
+	limit := ""
+	if se, ok := dst.(*ast.SliceExpr); ok && !se.Slice3 {
+		target = se.X
+		if se.Low != nil {
+			off = t.toZ(se.Low)
+		}
+		if se.High != nil {
+			limit = t.toZ(se.High)
+		}
+	}
+	base, ok := target.(*ast.Ident)
+	if !ok || t.kindOf(target).k != "list" {
+		t.bad(at, "copy / Put into something that is not a slice variable (or a slice of one)")
+	}
+	t.refuseCallerVisible(dst, base, "element")
+	bn := t.nameOf(t.objOf(base))
+	if limit != "" {
+		// copy(dst[a:b], src): at most b-a elements
+		src = "(go_slice_to " + src + " (Z.sub " + limit + " " + off + "))"
+	}
+	return t.letIn(bn, t.kindOf(target).coq(), "(go_copy_at "+bn+" "+off+" "+src+")", rest)
+}
+
+func (t *ftr) retValue(results []ast.Expr, at ast.Node) string {
+	if len(results) == 0 {
+		if len(t.named) == 0 {
+			t.bad(at, "bare return without named results")
+		}
+		if len(t.named) == 1 {
+			return t.named[0]
+		}
+		return "(" + strings.Join(t.named, ", ") + ")"
+	}
+	if len(results) == 1 && len(t.resKinds) > 1 {
+		return t.expr(results[0]) // return f(...) with a multi-valued f
+	}
+	var parts []string
+	for i, r := range results {
+		if i < len(t.resKinds) {
+			parts = append(parts, t.exprAs(r, t.resKinds[i]))
+		} else {
+			parts = append(parts, t.expr(r))
+		}
+	}
+	if len(parts) == 1 {
+		return parts[0]
+	}
+	return "(" + strings.Join(parts, ", ") + ")"
 }
 
 func (t *ftr) block(list []ast.Stmt, k func() string) string {
@@ -678,28 +1384,14 @@ func (t *ftr) block(list []ast.Stmt, k func() string) string {
 	restK := func() string { return t.block(list[1:], k) }
 	switch s := s.(type) {
 	case *ast.ReturnStmt:
-		if len(s.Results) == 0 {
-			if len(t.named) == 0 {
-				t.bad(s, "bare return without named results")
-			}
-			if len(t.named) == 1 {
-				return t.named[0]
-			}
-			return "(" + strings.Join(t.named, ", ") + ")"
-		}
-		var parts []string
-		for _, r := range s.Results {
-			parts = append(parts, t.expr(r))
-		}
-		if len(parts) == 1 {
-			return parts[0]
-		}
-		return "(" + strings.Join(parts, ", ") + ")"
+		v := t.retValue(s.Results, s)
+		return t.wrapPending(t.takePending(), t.mkRet(v))
 	case *ast.BlockStmt:
 		return t.block(append(append([]ast.Stmt{}, s.List...), list[1:]...), k)
 	case *ast.IfStmt:
 		mk := func() string {
 			cond := t.expr(s.Cond)
+			pend := t.takePending()
 			th := t.block(s.Body.List, restK)
 			var el string
 			switch e := s.Else.(type) {
@@ -710,7 +1402,7 @@ func (t *ftr) block(list []ast.Stmt, k func() string) string {
 			case *ast.IfStmt:
 				el = t.block([]ast.Stmt{e}, restK)
 			}
-			return "(if " + cond + "\n  then " + th + "\n  else " + el + ")"
+			return t.wrapPending(pend, "(if "+cond+"\n  then "+th+"\n  else "+el+")")
 		}
 		if s.Init != nil {
 			return t.block([]ast.Stmt{s.Init}, mk)
@@ -723,7 +1415,7 @@ func (t *ftr) block(list []ast.Stmt, k func() string) string {
 			for _, c := range s.Body.List {
 				cc := c.(*ast.CaseClause)
 				for _, b := range cc.Body {
-					if br, ok := b.(*ast.BranchStmt); ok {
+					if br, ok := b.(*ast.BranchStmt); ok && br.Tok != token.CONTINUE {
 						t.bad(br, "branch statement in switch")
 					}
 				}
@@ -733,34 +1425,44 @@ func (t *ftr) block(list []ast.Stmt, k func() string) string {
 					clauses = append(clauses, cc)
 				}
 			}
-			var res string
-			if def != nil {
-				res = t.block(def.Body, restK)
-			} else {
-				res = restK()
+			tag := ""
+			var tagK tkind
+			var tagPend []pendCall
+			if s.Tag != nil {
+				tagK = t.kindOf(s.Tag)
+				tag = t.expr(s.Tag)
+				tagPend = t.takePending()
 			}
-			for i := len(clauses) - 1; i >= 0; i-- {
+			var build func(i int) string
+			build = func(i int) string {
+				if i == len(clauses) {
+					if def != nil {
+						return t.block(def.Body, restK)
+					}
+					return restK()
+				}
 				cc := clauses[i]
 				var conds []string
 				for _, ce := range cc.List {
 					if s.Tag != nil {
-						k := t.kindOf(s.Tag)
-						m := k.k
-						if m == "bool" {
-							m = "Bool"
+						eq := tagK.eqb()
+						if eq == "" {
+							t.bad(s, "switch on a %s value", tagK.k)
 						}
-						conds = append(conds, "("+m+".eqb "+t.expr(s.Tag)+" "+t.exprAs(ce, k)+")")
+						conds = append(conds, "("+eq+" "+tag+" "+t.exprAs(ce, tagK)+")")
 					} else {
 						conds = append(conds, t.expr(ce))
 					}
 				}
+				pend := t.takePending()
 				c := conds[0]
 				for _, x := range conds[1:] {
 					c = "(orb " + c + " " + x + ")"
 				}
-				res = "(if " + c + "\n  then " + t.block(cc.Body, restK) + "\n  else " + res + ")"
+				th := t.block(cc.Body, restK)
+				return t.wrapPending(pend, "(if "+c+"\n  then "+th+"\n  else "+build(i+1)+")")
 			}
-			return res
+			return t.wrapPending(tagPend, build(0))
 		}
 		if s.Init != nil {
 			return t.block([]ast.Stmt{s.Init}, mk)
@@ -770,21 +1472,42 @@ func (t *ftr) block(list []ast.Stmt, k func() string) string {
 		if s.Tok == token.ASSIGN || s.Tok == token.DEFINE {
 			if len(s.Lhs) == len(s.Rhs) {
 				if len(s.Lhs) == 1 {
-					return t.assignTo(s.Lhs[0], t.expr(s.Rhs[0]), restK())
+					var v string
+					if id, ok := s.Lhs[0].(*ast.Ident); ok && id.Name == "_" {
+						v = t.expr(s.Rhs[0])
+					} else {
+						v = t.exprAs(s.Rhs[0], t.kindOf(s.Lhs[0]))
+					}
+					pend := t.takePending()
+					return t.wrapPending(pend, t.assignTo(s.Lhs[0], v, restK))
 				}
 				// parallel assignment: evaluate all, then bind
 				var tmp []string
 				for i, r := range s.Rhs {
-					tmp = append(tmp, fmt.Sprintf("(let tmp_%d := %s in ", i, t.expr(r)))
+					var v string
+					if id, ok := s.Lhs[i].(*ast.Ident); ok && id.Name == "_" {
+						v = t.expr(r)
+					} else {
+						v = t.exprAs(r, t.kindOf(s.Lhs[i]))
+					}
+					tmp = append(tmp, fmt.Sprintf("(let tmp_%d := %s in ", i, v))
 				}
-				body := restK()
-				for i := len(s.Lhs) - 1; i >= 0; i-- {
-					body = t.assignTo(s.Lhs[i], fmt.Sprintf("tmp_%d", i), body)
+				pend := t.takePending()
+				var bindAll func(i int) string
+				bindAll = func(i int) string {
+					if i == len(s.Lhs) {
+						return restK()
+					}
+					return t.assignTo(s.Lhs[i], fmt.Sprintf("tmp_%d", i), func() string { return bindAll(i + 1) })
 				}
-				return strings.Join(tmp, "") + body + strings.Repeat(")", len(tmp))
+				return t.wrapPending(pend, strings.Join(tmp, "")+bindAll(0)+strings.Repeat(")", len(tmp)))
 			}
 			if len(s.Rhs) == 1 {
+				rhs := t.expr(s.Rhs[0])
+				pend := t.takePending()
 				var names []string
+				type b struct{ n, ty string }
+				var bs []b
 				for _, l := range s.Lhs {
 					id, ok := l.(*ast.Ident)
 					if !ok {
@@ -793,10 +1516,24 @@ func (t *ftr) block(list []ast.Stmt, k func() string) string {
 					if id.Name == "_" {
 						names = append(names, "_")
 					} else {
-						names = append(names, "v_"+id.Name)
+						obj := t.objOf(id)
+						kk, ok := kindOfType(obj.Type())
+						if !ok {
+							t.bad(s, "variable %s has unsupported type", id.Name)
+						}
+						n := t.nameOf(obj)
+						names = append(names, n)
+						bs = append(bs, b{n, kk.coq()})
 					}
 				}
-				return "(let '(" + strings.Join(names, ", ") + ") := " + t.expr(s.Rhs[0]) + " in\n  " + restK() + ")"
+				var bindAll func(i int) string
+				bindAll = func(i int) string {
+					if i == len(bs) {
+						return restK()
+					}
+					return t.bind(bs[i].n, bs[i].ty, func() string { return bindAll(i + 1) })
+				}
+				return t.wrapPending(pend, "(let '("+strings.Join(names, ", ")+") := "+rhs+" in\n  "+bindAll(0)+")")
 			}
 			t.bad(s, "assignment shape")
 		}
@@ -806,7 +1543,9 @@ func (t *ftr) block(list []ast.Stmt, k func() string) string {
 		if op, ok := ops[s.Tok]; ok && len(s.Lhs) == 1 {
 			be := &ast.BinaryExpr{X: s.Lhs[0], Op: op, Y: s.Rhs[0], OpPos: s.TokPos}
 			t.pi.info.Types[be] = types.TypeAndValue{Type: t.typeOf(s.Lhs[0])}
-			return t.assignTo(s.Lhs[0], t.binary(be), restK())
+			v := t.binary(be)
+			pend := t.takePending()
+			return t.wrapPending(pend, t.assignTo(s.Lhs[0], v, restK))
 		}
 		t.bad(s, "assignment operator %s", s.Tok)
 	case *ast.IncDecStmt:
@@ -827,7 +1566,8 @@ func (t *ftr) block(list []ast.Stmt, k func() string) string {
 				v = "(subw " + modOf(k.w) + " " + x + " " + one + ")"
 			}
 		}
-		return t.assignTo(s.X, v, restK())
+		pend := t.takePending()
+		return t.wrapPending(pend, t.assignTo(s.X, v, restK))
 	case *ast.DeclStmt:
 		gd, ok := s.Decl.(*ast.GenDecl)
 		if !ok || (gd.Tok != token.VAR && gd.Tok != token.CONST) {
@@ -836,23 +1576,78 @@ func (t *ftr) block(list []ast.Stmt, k func() string) string {
 		if gd.Tok == token.CONST {
 			return restK()
 		}
-		type bind struct{ name, val string }
-		var binds []bind
+		type bnd struct{ name, typ, val string }
+		var binds []bnd
 		for _, sp := range gd.Specs {
 			vs := sp.(*ast.ValueSpec)
 			for i, n := range vs.Names {
+				if n.Name == "_" {
+					continue
+				}
+				obj := t.pi.info.Defs[n]
+				kk, ok := kindOfType(obj.Type())
+				if !ok {
+					t.bad(s, "variable %s has unsupported type %s", n.Name, obj.Type())
+				}
+				t.ensureKind(kk, obj.Type(), s)
 				if i < len(vs.Values) {
-					binds = append(binds, bind{n.Name, t.expr(vs.Values[i])})
+					binds = append(binds, bnd{t.nameOf(obj), kk.coq(), t.exprAs(vs.Values[i], kk)})
 				} else {
-					binds = append(binds, bind{n.Name, t.zero(t.pi.info.Defs[n].Type(), s)})
+					binds = append(binds, bnd{t.nameOf(obj), kk.coq(), t.zero(obj.Type(), s)})
 				}
 			}
 		}
-		body := restK()
-		for i := len(binds) - 1; i >= 0; i-- {
-			body = "(let v_" + binds[i].name + " := " + binds[i].val + " in\n  " + body + ")"
+		pend := t.takePending()
+		var bindAll func(i int) string
+		bindAll = func(i int) string {
+			if i == len(binds) {
+				return restK()
+			}
+			return t.letIn(binds[i].name, binds[i].typ, binds[i].val, func() string { return bindAll(i + 1) })
 		}
-		return body
+		return t.wrapPending(pend, bindAll(0))
+	case *ast.ExprStmt:
+		if c, ok := s.X.(*ast.CallExpr); ok {
+			if id, ok := c.Fun.(*ast.Ident); ok && id.Name == "copy" {
+				if _, isB := t.pi.info.Uses[id].(*types.Builtin); isB && len(c.Args) == 2 {
+					src := t.expr(c.Args[1])
+					pend := t.takePending()
+					return t.wrapPending(pend, t.overwrite(c.Args[0], src, restK, s))
+				}
+			}
+			if sel, ok := c.Fun.(*ast.SelectorExpr); ok {
+				if fn, ok := t.pi.info.Uses[sel.Sel].(*types.Func); ok && strings.HasPrefix(fn.FullName(), "(encoding/binary.bigEndian).Put") && len(c.Args) == 2 {
+					w := strings.TrimPrefix(fn.Name(), "PutUint")
+					if w == "16" || w == "32" || w == "64" {
+						usesGoList = true
+						v := t.exprAs(c.Args[1], tkind{k: "N", w: 64})
+						pend := t.takePending()
+						return t.wrapPending(pend, t.overwrite(c.Args[0], "(go_put_be"+w+" "+v+")", restK, s))
+					}
+				}
+			}
+		}
+		t.bad(s, "expression statement (only copy and binary.BigEndian.PutUintNN are known)")
+	case *ast.ForStmt:
+		if s.Cond == nil && !hasOwnBreak(s.Body) {
+			// `for { ... }` left only by return: what follows is unreachable (GoNext never happens)
+			return t.forLoop(s, func() string { return t.mkOof() })
+		}
+		return t.forLoop(s, restK)
+	case *ast.RangeStmt:
+		return t.rangeLoop(s, restK)
+	case *ast.BranchStmt:
+		c := t.cur()
+		if s.Label != nil || c == nil {
+			t.bad(s, "branch statement %s outside a loop or with a label", s.Tok)
+		}
+		switch s.Tok {
+		case token.BREAK:
+			return "(GoNext, " + tupleOf(c.state) + ")"
+		case token.CONTINUE:
+			return t.loopNext()
+		}
+		t.bad(s, "branch statement %s", s.Tok)
 	case *ast.EmptyStmt:
 		return restK()
 	}
@@ -860,9 +1655,312 @@ func (t *ftr) block(list []ast.Stmt, k func() string) string {
 	return ""
 }
 
+// hasOwnBreak: a break statement that leaves this loop (not one of a nested loop).
+func hasOwnBreak(body *ast.BlockStmt) bool {
+	found := false
+	var walk func(n ast.Node) bool
+	walk = func(n ast.Node) bool {
+		switch x := n.(type) {
+		case *ast.ForStmt, *ast.RangeStmt, *ast.FuncLit, *ast.SelectStmt:
+			return false
+		case *ast.BranchStmt:
+			if x.Tok == token.BREAK {
+				found = true
+			}
+		}
+		return true
+	}
+	ast.Inspect(body, walk)
+	return found
+}
+
+// loopNext: run the post statement and go round again.
+func (t *ftr) loopNext() string {
+	c := t.cur()
+	return t.block(c.post, func() string {
+		parts := []string{c.fix}
+		parts = append(parts, c.lead...)
+		parts = append(parts, c.lf)
+		if c.rng {
+			parts = append(parts, "(Z.add "+c.ri+" (1)%Z)")
+		}
+		for _, v := range c.state {
+			parts = append(parts, v.name)
+		}
+		return "(" + strings.Join(parts, " ") + ")"
+	})
+}
+
+// emitLoop writes the Fixpoint of a loop and returns the term that runs it and continues with rest.
+//
+//	lead      constant leading parameters (name, type) — the range source
+//	budget    the nat the loop may spend
+//	cond      renders the loop condition ("" = true) — called inside the loop context
+//	prelude   binds the per-iteration variables of a range loop around the body
+func (t *ftr) emitLoop(at ast.Node, lead []envVar, leadArgs []string, budget string, rng bool, post []ast.Stmt,
+	cond func() (string, []pendCall), body func(k func() string) string, rest func() string) string {
+	usesGoList = true
+	t.nloops++
+	if t.opt {
+		// the budget of nested loops and of callees travels along unchanged
+		lead = append([]envVar{{"fuel", "nat"}}, lead...)
+		leadArgs = append([]string{"fuel"}, leadArgs...)
+	}
+	num := t.nloops
+	fix := fmt.Sprintf("%s_loop%d", coqFuncName(t.dir, t.fn), num)
+	state := append([]envVar{}, t.env...)
+	c := &lctx{fix: fix, state: state, post: post, rng: rng, lf: "lf", ri: fmt.Sprintf("r_i%d", num), num: num}
+	for _, l := range lead {
+		c.lead = append(c.lead, l.name)
+	}
+	// inside the fix: scope = lead + (r_i) + state; the outer scope is not visible
+	savedEnv := t.env
+	t.env = append([]envVar{}, lead...)
+	if rng {
+		t.env = append(t.env, envVar{c.ri, "Z"})
+	}
+	t.env = append(t.env, state...)
+	t.loops = append(t.loops, c)
+	var fixBody string
+	{
+		cnd, pend := "true", []pendCall(nil)
+		if cond != nil {
+			cnd, pend = cond()
+		}
+		exit := "(GoNext, " + tupleOf(state) + ")"
+		b := body(func() string { return t.loopNext() })
+		fixBody = t.wrapPending(pend, "(if "+cnd+"\n  then "+b+"\n  else "+exit+")")
+	}
+	oof := t.mkOof()
+	t.loops = t.loops[:len(t.loops)-1]
+	t.env = savedEnv
+	var params []string
+	for _, l := range lead {
+		params = append(params, "("+l.name+" : "+l.typ+")")
+	}
+	params = append(params, "(lf0 : nat)")
+	if rng {
+		params = append(params, "("+c.ri+" : Z)")
+	}
+	for _, v := range state {
+		params = append(params, "("+v.name+" : "+v.typ+")")
+	}
+	pos := t.pi.fset.Position(at.Pos())
+	fmt.Fprintf(&out, "(* loop %d of %s.%s (%s:%d): hands back (how it ended, the variables in scope) *)\nFixpoint %s %s {struct lf0} : (go_ctl %s * %s)%%type :=\n  match lf0 with\n  | O => %s\n  | S lf => %s\n  end.\n\n",
+		num, t.dir, t.fn, strings.TrimPrefix(pos.Filename, repo+"/"), pos.Line, fix, strings.Join(params, " "), t.rtPlain, tupleTypeOf(state), oof, fixBody)
+	// the call site
+	call := []string{fix}
+	call = append(call, leadArgs...)
+	call = append(call, budget)
+	if rng {
+		call = append(call, "(0)%Z")
+	}
+	for _, v := range state {
+		call = append(call, v.name)
+	}
+	callTerm := "(" + strings.Join(call, " ") + ")"
+	if rest == nil {
+		return callTerm
+	}
+	after := rest()
+	pat := tupleOf(state)
+	return "(match " + callTerm + " with\n  | (GoRet r_ret, _) => " + t.mkRet("r_ret") + "\n  | (GoOof, _) => " + t.mkOof() + "\n  | (GoNext, " + "st_loop) => let '" + patOrUnit(pat) + " := st_loop in " + after + "\n  end)"
+}
+
+func patOrUnit(p string) string {
+	if strings.HasPrefix(p, "(") {
+		return p
+	}
+	return "(" + p + ")"
+}
+
+func (t *ftr) forLoop(s *ast.ForStmt, rest func() string) string {
+	if !t.opt {
+		t.bad(s, "internal: for loop in a function not classified as needing fuel")
+	}
+	run := func() string {
+		var post []ast.Stmt
+		if s.Post != nil {
+			post = []ast.Stmt{s.Post}
+		}
+		var cond func() (string, []pendCall)
+		if s.Cond != nil {
+			cond = func() (string, []pendCall) { c := t.expr(s.Cond); return c, t.takePending() }
+		}
+		return t.emitLoop(s, nil, nil, "fuel", false, post, cond,
+			func(k func() string) string { return t.block(s.Body.List, k) }, rest)
+	}
+	if s.Init != nil {
+		return t.block([]ast.Stmt{s.Init}, run)
+	}
+	return run()
+}
+
+func (t *ftr) rangeLoop(s *ast.RangeStmt, rest func() string) string {
+	if s.Tok == token.ASSIGN {
+		t.bad(s, "range loop assigning to existing variables")
+	}
+	xt := t.typeOf(s.X)
+	xk, ok := kindOfType(xt)
+	if !ok {
+		t.bad(s, "range over unsupported type %s", xt)
+	}
+	if b, isBasic := types.Unalias(xt).Underlying().(*types.Basic); isBasic && b.Info()&types.IsString != 0 {
+		t.bad(s, "range over a string iterates over runes, not octets")
+	}
+	src := t.expr(s.X)
+	pend := t.takePending()
+	num := t.nloops + 1
+	rS, rI, rN, rSrc := fmt.Sprintf("r_s%d", num), fmt.Sprintf("r_i%d", num), fmt.Sprintf("r_n%d", num), fmt.Sprintf("r_src%d", num)
+	keyObj := func(e ast.Expr) (types.Object, bool) {
+		if e == nil {
+			return nil, false
+		}
+		id, ok := e.(*ast.Ident)
+		if !ok {
+			t.bad(s, "range variable is not an identifier")
+		}
+		if id.Name == "_" {
+			return nil, false
+		}
+		return t.objOf(id), true
+	}
+	switch xk.k {
+	case "list":
+		var ety types.Type
+		switch u := types.Unalias(xt).Underlying().(type) {
+		case *types.Slice:
+			ety = u.Elem()
+		case *types.Array:
+			ety = u.Elem()
+		}
+		d := t.zeroName(*xk.elem, ety, s)
+		lead := []envVar{{rS, xk.coq()}}
+		body := func(k func() string) string {
+			inner := func() string { return t.block(s.Body.List, k) }
+			if vo, ok := keyObj(s.Value); ok {
+				in2 := inner
+				inner = func() string {
+					return t.letIn(t.nameOf(vo), xk.elem.coq(), "(go_idx "+d+" "+rS+" "+rI+")", in2)
+				}
+			}
+			if ko, ok := keyObj(s.Key); ok {
+				in3 := inner
+				inner = func() string { return t.letIn(t.nameOf(ko), "Z", rI, in3) }
+			}
+			return inner()
+		}
+		cond := func() (string, []pendCall) { return "(Z.ltb " + rI + " (go_len " + rS + "))", nil }
+		return t.wrapPending(pend, "(let "+rSrc+" := "+src+" in\n  "+
+			t.emitLoop(s, lead, []string{rSrc}, "(S (length "+rSrc+"))", true, nil, cond, body, rest)+")")
+	case "Z", "N":
+		// for i := range n
+		if s.Value != nil {
+			t.bad(s, "range over an integer with two variables")
+		}
+		lead := []envVar{{rN, "Z"}}
+		n := src
+		if xk.k == "N" {
+			n = "(Z.of_N " + src + ")"
+		}
+		body := func(k func() string) string {
+			inner := func() string { return t.block(s.Body.List, k) }
+			if ko, ok := keyObj(s.Key); ok {
+				in3 := inner
+				val := rI
+				if xk.k == "N" {
+					val = "(Z.to_N " + rI + ")"
+				}
+				inner = func() string { return t.letIn(t.nameOf(ko), xk.coq(), val, in3) }
+			}
+			return inner()
+		}
+		cond := func() (string, []pendCall) { return "(Z.ltb " + rI + " " + rN + ")", nil }
+		return t.wrapPending(pend, "(let "+rSrc+" := "+n+" in\n  "+
+			t.emitLoop(s, lead, []string{rSrc}, "(S (Z.to_nat "+rSrc+"))", true, nil, cond, body, rest)+")")
+	}
+	t.bad(s, "range over a %s value", xk.k)
+	return ""
+}
+
 func coqFuncName(dir, fn string) string {
 	return "go_" + typeTag(dir, strings.ReplaceAll(fn, ".", "_"))
 }
+
+// optFuncs: functions that need an iteration budget (a non-range loop, directly or in a callee).
+var (
+	optFuncs = map[string]bool{}
+	optDone  = map[string]bool{}
+	optBusy  = map[string]bool{}
+)
+
+func needsFuel(pi *pkgInfo, dir, fn string) bool {
+	key := dir + "." + fn
+	if optDone[key] {
+		return optFuncs[key]
+	}
+	if optBusy[key] {
+		return false // recursion is refused later
+	}
+	optBusy[key] = true
+	fd := pi.findFunc(fn)
+	res := false
+	if fd != nil && fd.Body != nil {
+		ast.Inspect(fd.Body, func(n ast.Node) bool {
+			if res {
+				return false
+			}
+			switch x := n.(type) {
+			case *ast.ForStmt:
+				res = true
+			case *ast.FuncLit:
+				return false
+			case *ast.CallExpr:
+				var id *ast.Ident
+				var recvT types.Type
+				switch f := x.Fun.(type) {
+				case *ast.Ident:
+					id = f
+				case *ast.SelectorExpr:
+					id = f.Sel
+					if tv, ok := pi.info.Types[f.X]; ok {
+						recvT = tv.Type
+					}
+				}
+				if id == nil {
+					return true
+				}
+				callee, ok := pi.info.Uses[id].(*types.Func)
+				if !ok || callee.Pkg() == nil || !(callee.Pkg() == pi.pkg || inRepo(callee.Pkg())) {
+					return true
+				}
+				cd := dir
+				cpi := pi
+				if callee.Pkg() != pi.pkg {
+					cd = dirOfPkg(callee.Pkg())
+					cpi = loadPkg(cd)
+				}
+				cfn := callee.Name()
+				if sig, ok := callee.Type().(*types.Signature); ok && sig.Recv() != nil {
+					if n := namedOf(sig.Recv().Type()); n != nil {
+						cfn = n.Obj().Name() + "." + callee.Name()
+					}
+				}
+				_ = recvT
+				if needsFuel(cpi, cd, cfn) {
+					res = true
+				}
+			}
+			return true
+		})
+	}
+	delete(optBusy, key)
+	optDone[key] = true
+	optFuncs[key] = res
+	return res
+}
+
+var allowParamMutation bool
 
 // ensureFunc translates dir.fn if not done yet and returns its Coq name.
 func ensureFunc(pi *pkgInfo, dir, fn string, at ast.Node) string {
@@ -878,45 +1976,67 @@ func ensureFunc(pi *pkgInfo, dir, fn string, at ast.Node) string {
 	if fd == nil || fd.Body == nil {
 		broken("purefunc %s: function not found", key)
 	}
-	t := &ftr{pi: pi, dir: dir, fn: fn}
+	t := &ftr{pi: pi, dir: dir, fn: fn, names: map[types.Object]string{}, used: map[string]bool{}, params: map[types.Object]bool{}, allowMut: allowParamMutation}
+	for _, r := range []string{"fuel", "lf", "lf0", "r_i", "r_s", "r_n", "r_src", "r_ret", "st_loop"} {
+		t.used[r] = true
+	}
+	t.opt = needsFuel(pi, dir, fn)
 	var params []string
-	addParam := func(name string, ty types.Type, at ast.Node) {
+	if t.opt {
+		params = append(params, "(fuel : nat)")
+	}
+	addParam := func(id *ast.Ident, ty types.Type, at ast.Node) {
 		k, ok := kindOfType(ty)
 		if !ok {
-			t.bad(at, "parameter %s has unsupported type %s", name, ty)
+			t.bad(at, "parameter has unsupported type %s", ty)
 		}
-		if k.k == "struct" {
-			t.ensureStruct(namedOf(ty), at)
-		}
-		if name == "_" || name == "" {
+		t.ensureKind(k, ty, at)
+		if id == nil || id.Name == "_" || id.Name == "" {
 			params = append(params, "(_ : "+k.coq()+")")
-		} else {
-			params = append(params, "(v_"+name+" : "+k.coq()+")")
+			return
 		}
+		obj := pi.info.Defs[id]
+		n := t.nameOf(obj)
+		t.params[obj] = true
+		params = append(params, "("+n+" : "+k.coq()+")")
+		t.push(n, k.coq())
 	}
 	if fd.Recv != nil {
 		f := fd.Recv.List[0]
-		name := "_"
+		var id *ast.Ident
 		if len(f.Names) == 1 {
-			name = f.Names[0].Name
+			id = f.Names[0]
 		}
 		ty := pi.info.Types[f.Type].Type
 		if p, ok := ty.(*types.Pointer); ok {
 			ty = p.Elem()
 		}
-		addParam(name, ty, f)
+		addParam(id, ty, f)
+		if id != nil && id.Name != "_" {
+			// keep the pointer-ness for the caller-visibility test
+			if _, isPtr := pi.info.Types[f.Type].Type.(*types.Pointer); !isPtr {
+				delete(t.params, pi.info.Defs[id])
+			}
+		}
 	}
 	for _, f := range fd.Type.Params.List {
 		ty := pi.info.Types[f.Type].Type
+		if p, ok := ty.(*types.Pointer); ok {
+			if n := namedOf(p); n != nil {
+				if _, isStruct := n.Underlying().(*types.Struct); isStruct {
+					ty = p.Elem() // *T parameter read as a value (mutation through it is refused)
+				}
+			}
+		}
 		if len(f.Names) == 0 {
-			addParam("_", ty, f)
+			addParam(nil, ty, f)
 		}
 		for _, n := range f.Names {
-			addParam(n.Name, ty, f)
+			addParam(n, ty, f)
 		}
 	}
 	var rts []string
-	var namedInit []struct{ n, z string }
+	var namedInit []struct{ n, ty, z string }
 	if fd.Type.Results != nil {
 		for _, f := range fd.Type.Results.List {
 			ty := pi.info.Types[f.Type].Type
@@ -924,19 +2044,19 @@ func ensureFunc(pi *pkgInfo, dir, fn string, at ast.Node) string {
 			if !ok {
 				t.bad(f, "result has unsupported type %s", ty)
 			}
-			if k.k == "struct" {
-				t.ensureStruct(namedOf(ty), f)
-			}
+			t.ensureKind(k, ty, f)
 			cnt := len(f.Names)
 			if cnt == 0 {
 				cnt = 1
 			}
 			for i := 0; i < cnt; i++ {
 				rts = append(rts, k.coq())
+				t.resKinds = append(t.resKinds, k)
 			}
 			for _, n := range f.Names {
-				t.named = append(t.named, "v_"+n.Name)
-				namedInit = append(namedInit, struct{ n, z string }{"v_" + n.Name, t.zero(ty, f)})
+				nm := t.nameOf(pi.info.Defs[n])
+				t.named = append(t.named, nm)
+				namedInit = append(namedInit, struct{ n, ty, z string }{nm, k.coq(), t.zero(ty, f)})
 			}
 		}
 	}
@@ -947,13 +2067,40 @@ func ensureFunc(pi *pkgInfo, dir, fn string, at ast.Node) string {
 	if len(rts) > 1 {
 		rt = "(" + strings.Join(rts, " * ") + ")%type"
 	}
-	body := t.block(fd.Body.List, nil)
-	for i := len(namedInit) - 1; i >= 0; i-- {
-		body = "(let " + namedInit[i].n + " := " + namedInit[i].z + " in\n  " + body + ")"
+	t.rtPlain = rt
+	{
+		var zs []string
+		i := 0
+		for _, f := range fd.Type.Results.List {
+			cnt := len(f.Names)
+			if cnt == 0 {
+				cnt = 1
+			}
+			for j := 0; j < cnt; j++ {
+				zs = append(zs, t.zero(pi.info.Types[f.Type].Type, f))
+				i++
+			}
+		}
+		t.resZero = zs[0]
+		if len(zs) > 1 {
+			t.resZero = "(" + strings.Join(zs, ", ") + ")"
+		}
 	}
+	var mkBody func(i int) string
+	mkBody = func(i int) string {
+		if i == len(namedInit) {
+			return t.block(fd.Body.List, nil)
+		}
+		return t.letIn(namedInit[i].n, namedInit[i].ty, namedInit[i].z, func() string { return mkBody(i + 1) })
+	}
+	body := mkBody(0)
 	name := coqFuncName(dir, fn)
 	pos := pi.fset.Position(fd.Pos())
-	fmt.Fprintf(&out, "(* purefunc %s.%s (%s:%d) *)\nDefinition %s %s : %s :=\n  %s.\n\n", dir, fn, strings.TrimPrefix(pos.Filename, repo+"/"), pos.Line, name, strings.Join(params, " "), rt, body)
+	outRt := rt
+	if t.opt {
+		outRt = "option " + rt
+	}
+	fmt.Fprintf(&out, "(* purefunc %s.%s (%s:%d) *)\nDefinition %s %s : %s :=\n  %s.\n\n", dir, fn, strings.TrimPrefix(pos.Filename, repo+"/"), pos.Line, name, strings.Join(params, " "), outRt, body)
 	emittedFuncs[key] = name
 	delete(inProgress, key)
 	return name
@@ -961,9 +2108,192 @@ func ensureFunc(pi *pkgInfo, dir, fn string, at ast.Node) string {
 
 func doPureFunc(it Item) {
 	rootDir = it.Pkg
+	allowParamMutation = it.AllowParamMutation
 	pi := loadPkg(it.Pkg)
 	name := ensureFunc(pi, it.Pkg, it.Func, nil)
 	if it.As != "" && it.As != name {
 		fmt.Fprintf(&out, "Definition %s := %s.\n\n", it.As, name)
 	}
+}
+
+// ---------------------------------------------------------------- loopfunc
+//
+// {"kind":"loopfunc","pkg":dir,"func":"Name|Recv.Name","nth":k} translates the k-th for/range
+// statement (source order, nested ones counted) of a function that is not translatable as a
+// whole (netip / net / map / interface types around the loop) as a function of the local
+// variables the loop mentions: `go_<Func>_loop<k>_run [fuel] vars : (go_ctl R * State)` where
+// State is the tuple of those variables after the loop (GoNext), R the enclosing function's
+// result when the loop contains a return statement (unit otherwise).
+func doLoopFunc(it Item) {
+	rootDir = it.Pkg
+	pi := loadPkg(it.Pkg)
+	fd := pi.findFunc(it.Func)
+	if fd == nil || fd.Body == nil {
+		broken("loopfunc %s.%s: function not found", it.Pkg, it.Func)
+	}
+	var loops []ast.Stmt
+	ast.Inspect(fd.Body, func(n ast.Node) bool {
+		switch x := n.(type) {
+		case *ast.FuncLit:
+			return false
+		case *ast.ForStmt:
+			loops = append(loops, x)
+		case *ast.RangeStmt:
+			loops = append(loops, x)
+		}
+		return true
+	})
+	if it.Nth >= len(loops) {
+		broken("loopfunc %s.%s: %d loops, need index %d", it.Pkg, it.Func, len(loops), it.Nth)
+	}
+	loop := loops[it.Nth]
+	t := &ftr{pi: pi, dir: it.Pkg, fn: it.Func, names: map[types.Object]string{}, used: map[string]bool{}, params: map[types.Object]bool{}, allowMut: true}
+	for _, r := range []string{"fuel", "lf", "lf0", "r_i", "r_s", "r_n", "r_src", "r_ret", "st_loop"} {
+		t.used[r] = true
+	}
+	t.nloops = it.Nth // the Fixpoint is named ..._loop<nth+1>
+	// result type of the enclosing function, needed only when the loop returns
+	hasRet := false
+	ast.Inspect(loop, func(n ast.Node) bool {
+		switch n.(type) {
+		case *ast.FuncLit:
+			return false
+		case *ast.ReturnStmt:
+			hasRet = true
+		}
+		return true
+	})
+	t.rtPlain, t.resZero = "unit", "tt"
+	if hasRet {
+		var rts, zs []string
+		if fd.Type.Results == nil {
+			broken("loopfunc %s.%s: return inside the loop of a function without results", it.Pkg, it.Func)
+		}
+		for _, f := range fd.Type.Results.List {
+			ty := pi.info.Types[f.Type].Type
+			k, ok := kindOfType(ty)
+			if !ok {
+				t.bad(f, "the loop returns and the function's result has unsupported type %s", ty)
+			}
+			t.ensureKind(k, ty, f)
+			cnt := len(f.Names)
+			if cnt == 0 {
+				cnt = 1
+			}
+			for i := 0; i < cnt; i++ {
+				rts = append(rts, k.coq())
+				zs = append(zs, t.zero(ty, f))
+				t.resKinds = append(t.resKinds, k)
+			}
+			for _, n := range f.Names {
+				t.named = append(t.named, t.nameOf(pi.info.Defs[n]))
+			}
+		}
+		t.rtPlain, t.resZero = rts[0], zs[0]
+		if len(rts) > 1 {
+			t.rtPlain = "(" + strings.Join(rts, " * ") + ")%type"
+			t.resZero = "(" + strings.Join(zs, ", ") + ")"
+		}
+	}
+	// free local variables of the loop, in declaration order
+	seen := map[types.Object]bool{}
+	var free []*types.Var
+	ast.Inspect(loop, func(n ast.Node) bool {
+		id, ok := n.(*ast.Ident)
+		if !ok {
+			return true
+		}
+		v, ok := pi.info.Uses[id].(*types.Var)
+		if !ok || v.IsField() || v.Parent() == pi.pkg.Scope() || v.Pkg() != pi.pkg {
+			return true
+		}
+		if v.Pos() >= loop.Pos() && v.Pos() < loop.End() {
+			return true
+		}
+		if !seen[v] {
+			seen[v] = true
+			free = append(free, v)
+		}
+		return true
+	})
+	sort.Slice(free, func(i, j int) bool { return free[i].Pos() < free[j].Pos() })
+	_, isFor := loop.(*ast.ForStmt)
+	t.opt = isFor || loopNeedsFuel(pi, it.Pkg, loop)
+	var params []string
+	if t.opt {
+		params = append(params, "(fuel : nat)")
+	}
+	for _, v := range free {
+		ty := derefStruct(v.Type())
+		k, ok := kindOfType(ty)
+		if !ok {
+			broken("loopfunc %s.%s: the loop uses variable %s of unsupported type %s", it.Pkg, it.Func, v.Name(), v.Type())
+		}
+		t.ensureKind(k, ty, loop)
+		n := t.nameOf(v)
+		params = append(params, "("+n+" : "+k.coq()+")")
+		t.push(n, k.coq())
+	}
+	stateT := tupleTypeOf(t.env)
+	var call string
+	switch l := loop.(type) {
+	case *ast.ForStmt:
+		if l.Init != nil {
+			broken("loopfunc %s.%s: the for statement has an init clause; declare the variable before the loop or use purefunc", it.Pkg, it.Func)
+		}
+		call = t.forLoop(l, nil)
+	case *ast.RangeStmt:
+		call = t.rangeLoop(l, nil)
+	}
+	name := fmt.Sprintf("%s_loop%d_run", coqFuncName(it.Pkg, it.Func), it.Nth+1)
+	pos := pi.fset.Position(loop.Pos())
+	fmt.Fprintf(&out, "(* loopfunc %s.%s loop %d (%s:%d): the loop as a function of the local variables it mentions *)\nDefinition %s %s : (go_ctl %s * %s)%%type :=\n  %s.\n\n",
+		it.Pkg, it.Func, it.Nth+1, strings.TrimPrefix(pos.Filename, repo+"/"), pos.Line, name, strings.Join(params, " "), t.rtPlain, stateT, call)
+	if it.As != "" && it.As != name {
+		fmt.Fprintf(&out, "Definition %s := %s.\n\n", it.As, name)
+	}
+}
+
+// loopNeedsFuel: a range loop whose body holds a for loop or calls a function that needs fuel.
+func loopNeedsFuel(pi *pkgInfo, dir string, loop ast.Stmt) bool {
+	res := false
+	ast.Inspect(loop, func(n ast.Node) bool {
+		switch x := n.(type) {
+		case *ast.FuncLit:
+			return false
+		case *ast.ForStmt:
+			res = true
+		case *ast.CallExpr:
+			var id *ast.Ident
+			switch f := x.Fun.(type) {
+			case *ast.Ident:
+				id = f
+			case *ast.SelectorExpr:
+				id = f.Sel
+			}
+			if id == nil {
+				return true
+			}
+			callee, ok := pi.info.Uses[id].(*types.Func)
+			if !ok || callee.Pkg() == nil || !(callee.Pkg() == pi.pkg || inRepo(callee.Pkg())) {
+				return true
+			}
+			cd, cpi := dir, pi
+			if callee.Pkg() != pi.pkg {
+				cd = dirOfPkg(callee.Pkg())
+				cpi = loadPkg(cd)
+			}
+			cfn := callee.Name()
+			if sig, ok := callee.Type().(*types.Signature); ok && sig.Recv() != nil {
+				if n := namedOf(sig.Recv().Type()); n != nil {
+					cfn = n.Obj().Name() + "." + callee.Name()
+				}
+			}
+			if needsFuel(cpi, cd, cfn) {
+				res = true
+			}
+		}
+		return true
+	})
+	return res
 }
